@@ -90,42 +90,47 @@ Fixpoint all_success (a : action) (names : list string) (answers : list answer) 
 Definition has_key (c : Z) (t : list (Z * wording)) : bool :=
   match lookup c t with Some _ => true | None => false end.
 
-(* the answer is one the wording rules of the action cover; its negation is the
-   signature of known finding C20-unknown-code *)
-Definition covered (a : action) (n : string) (x : answer) : bool :=
+(* the server answered for this target: a value, a fault (any code, of the
+   single-process call or of the group call) or a per-process result list (any
+   statuses).  Not answered: a transport error - socket.error or ProtocolError -
+   after which the command ends (exception net / authentication notice). *)
+Definition answered (a : action) (n : string) (x : answer) : bool :=
   if is_group_target a n then
     match x with
-    | AnsFault c _ => c =? F_BAD_NAME
-    | AnsResults rs => forallb (fun r => has_key (r_status r) (spec_wording a)) rs
+    | AnsFault _ _ | AnsResults _ => true
     | _ => false
     end
   else
     match x with
-    | AnsOk | AnsResults _ => true
-    | AnsFault c _ => has_key c (spec_wording a)
+    | AnsOk | AnsResults _ | AnsFault _ _ => true
     | _ => false
     end.
 
-Fixpoint all_covered (a : action) (names : list string) (answers : list answer) : bool :=
+Fixpoint all_answered (a : action) (names : list string) (answers : list answer) : bool :=
   match names, answers with
   | [], [] => true
-  | n :: ns, x :: xs => covered a n x && all_covered a ns xs
+  | n :: ns, x :: xs => answered a n x && all_answered a ns xs
   | _, _ => false
   end.
 
+(* the result line for (target, code, description): the prescribed wording, and for
+   every code without one an ERROR line naming the target, the code and the
+   server's text *)
 Definition spec_line (a : action) (name : string) (c : Z) (desc : string) : string :=
   match lookup c (spec_wording a) with
   | Some (WErr w) => name ++ ": ERROR (" ++ w ++ ")"
   | Some (WOk w) => name ++ ": " ++ w
   | Some WFaultString => desc
-  | _ => ""
+  | _ => name ++ ": ERROR (unexpected result code " ++ dec c ++ ": " ++ desc ++ ")"
   end.
 
 (* the result lines one target must produce: one per targeted process *)
 Definition expected_lines (a : action) (n : string) (x : answer) : list string :=
   if is_group_target a n then
     match x with
-    | AnsFault _ _ => [fst (split_namespec n) ++ ": ERROR (no such group)"]
+    | AnsFault c fs =>
+      [fst (split_namespec n) ++
+       (if c =? F_BAD_NAME then ": ERROR (no such group)" else ": ERROR (" ++ fs ++ ")")]
     | AnsResults rs =>
       map (fun r => spec_line a (make_namespec (r_group r) (r_name r)) (r_status r) (r_desc r)) rs
     | _ => []
@@ -198,10 +203,6 @@ Definition mon_never_silent (a : action) (names : list string) (answers : list a
   all_success a names answers ||
   (negb (status =? 0) && existsb (is_error_line (fault_strings answers)) ls).
 
-(* 0 = accepted; 1 = exit status wrong; 2 = silent failure; 3 = lines wrong although
-   every answer is covered by the wording rules; 5 = wrong non-zero status for a single target;
-   4 = outside the guard (known
-   finding C20-unknown-code) and fewer result lines than targets *)
 (* the exit status after a single process target answered with fault c: LSB "program is
    not running" (7) for spawn error / abnormal termination / not running, else 1 *)
 Definition spec_dead_faults : list Z := [F_SPAWN_ERROR; F_ABNORMAL_TERMINATION; F_NOT_RUNNING].
@@ -210,27 +211,26 @@ Definition spec_fault_exit (a : action) (c : Z) : Z :=
 Definition mon_exit_value (a : action) (names : list string) (answers : list answer) (status : Z) : bool :=
   match names, answers with
   | [n], [AnsFault c _] =>
-    if negb (is_group_target a n) && has_key c (spec_wording a) then status =? spec_fault_exit a c else true
+    if negb (is_group_target a n) then status =? spec_fault_exit a c else true
   | _, _ => true
   end.
 
 Definition mon_case := (action * list string * list answer * list line * Z)%type.
 Definition mkmon (a : action) (n : list string) (x : list answer) (l : list line) (z : Z) : mon_case :=
   (a, n, x, l, z).
+
+(* 0 = accepted; 1 = exit status wrong; 5 = wrong non-zero status for a single target;
+   2 = silent failure; 3 = lines wrong although the server answered for every target *)
 Definition monitor_verdict (c : action * list string * list answer * list line * Z) : Z :=
   let '(a, names, answers, ls, status) := c in
   if negb (mon_exit a names answers status) then 1
   else if negb (mon_exit_value a names answers status) then 5
   else if negb (mon_never_silent a names answers ls status) then 2
-  else if all_covered a names answers then (if mon_lines a names answers ls then 0 else 3)
-  else if (List.length ls <? total_targets a names answers)%nat then 4 else 0.
+  else if all_answered a names answers then (if mon_lines a names answers ls then 0 else 3)
+  else 0.
 
 Definition monitor_ok (c : action * list string * list answer * list line * Z) : bool :=
   monitor_verdict c =? 0.
-Definition monitor_ok_or_known (c : action * list string * list answer * list line * Z) : bool :=
-  (monitor_verdict c =? 0) || (monitor_verdict c =? 4).
-Definition monitor_known (c : action * list string * list answer * list line * Z) : bool :=
-  negb (monitor_verdict c =? 4).
 
 (* ------------------------------------------------------------------- status *)
 (* specification of `status names` against the process table the server returned *)
